@@ -80,6 +80,8 @@ def ev(e, env):
         if t is UNKNOWN:
             return UNKNOWN
         return ev(e.body if t else e.orelse, env)
+    if isinstance(e, ast.Call) and ('$' + src(e)) in env:
+        return env['$' + src(e)]            # an answer the rule supplies for a call it cannot evaluate (`$isinstance(data, str)`)
     if isinstance(e, ast.Call) and isinstance(e.func, ast.Name) and e.func.id == 'len' and len(e.args) == 1:
         v = ev(e.args[0], env)
         return v.n if isinstance(v, Sized) else UNKNOWN
